@@ -60,6 +60,8 @@ def addLit (v : Num) (l : Lit) : Num :=
 
 /-- `decode_number` (value = raw × resolution + offset) -/
 def decodeNumber (data off len : Nat) (signed : Bool) (res mn mx ofs : Lit) : Except DecErr (Option Num) :=
+  -- a field with an offset is stored excess-K: its raw count is unsigned whatever the database's Signed flag says (fix 63b81d6)
+  let signed := if ofs.val = 0 then signed else false
   let n := Straight.decode_int data off len
   let z : Int := if signed then signExtend n len else (n : Int)
   if naCode len signed = some z then .ok none
@@ -204,6 +206,7 @@ def subLit (v : Num) (l : Lit) : Num :=
 
 /-- `encode_number` (raw = round((value − offset) / resolution)) -/
 def encodeNumber (v : PyVal) (len : Nat) (signed : Bool) (res ofs : Lit) : Except EncErr Int :=
+  let signed := if ofs.val = 0 then signed else false      -- excess-K, as in `decodeNumber`
   match v with
   | .none =>
     if len = 1 then .error .range      -- a 1-bit field has no "not available" value (fix a25c5ee)
